@@ -59,8 +59,12 @@ class H:
             return self.sym[name]
         return self.S[name]
 
-    def reset(self, choices=()):
-        self.w.reset_run(choices)
+    def reset(self):
+        """Fresh class-level state for a new pre-state (recorded fork choices are kept)."""
+        if self.w.exploring:
+            self.w.reset_state()
+        else:
+            self.w.reset_run(())
         self._n = 0
 
     # ---- individuals (constructed by the code's own __init__, then given abstract lists)
